@@ -225,6 +225,9 @@ KeyCat == << Leaf("\"a\"", "a"), Leaf("key_var", "from var"), Leaf("\"b c\"", "b
              Leaf("\"q\\\"é\"", "q\"é"), Leaf("\"\"", ""), Leaf("key_string", "owned"), Leaf("\"{:,}\"", "{:,}"),
              Leaf("\"t\\tn\\n\\\\ \\u{1}\"", "t\tn\n\\ ") >>
 
+\* the key forms that are not string literals (key_var, ("p"), key_string): beyond the documented use of json!
+NonLiteralKeys == {2, 4, 7}
+
 Lit(k, e, tc, ks, items) == [k |-> k, e |-> e, tc |-> tc, ks |-> ks, items |-> items]
 NoLit     == Lit("none", 0, FALSE, <<>>, <<>>)
 LitEmpty  == Lit("empty", 0, FALSE, <<>>, <<>>)            \* json!()
